@@ -20,7 +20,8 @@ RULE = (
     "constraints with positive scales, finite/infinite bounds, 0-3 linear constraints (non-zero rows, all bound kinds), "
     "ABSOLUTE and RELATIVE perturbations, all boundary types, R in 1..3, P in 1..3, injected design samples that may "
     "leave the bounds, start points inside and outside the bounds, failed realizations up to 'too few successes, no function values'; the same user-domain configuration and point is evaluated (functions + gradients) with and "
-    "without the transforms. Oracle (differential): evaluator rows, user-domain results (variables, per-realization "
+    "without the transforms (EnsembleEvaluator on the validated configuration; for a quarter of the cases also the first evaluation of "
+    "BasicOptimizer given the plain dictionary). Oracle (differential): evaluator rows, user-domain results (variables, per-realization "
     "values, per-objective and per-constraint functions, all constraint diffs/violations) agree; 40 random points are feasible w.r.t. the "
     "user bounds/linear constraints iff their images are feasible w.r.t. the transformed configuration; from(to(x)) = x. "
     "Non-trivial: a variable scale != 1 and (a linear constraint or a perturbation that hits a bound)."
@@ -33,7 +34,8 @@ ASSUMPTIONS = [
 ]
 
 
-def build(case: dict[str, Any], with_transforms: bool) -> tuple[EnOptConfig, AffineEvaluator, PluginManager, OptModelTransforms | None]:  # noqa: FBT001
+def build(case: dict[str, Any], with_transforms: bool, raw: bool = False) -> tuple[Any, AffineEvaluator, PluginManager, OptModelTransforms | None]:  # noqa: FBT001, FBT002
+    """raw: return the configuration dictionary instead of the validated object."""
     n, r_n, p_n, k_n, c_n, l_n = case["n"], case["R"], case["P"], case["K"], case["C"], case["L"]
     cfg: dict[str, Any] = {
         "variables": {"initial_values": case["x"], "lower_bounds": case["lb"], "upper_bounds": case["ub"]},
@@ -55,7 +57,7 @@ def build(case: dict[str, Any], with_transforms: bool) -> tuple[EnOptConfig, Aff
             objectives=ObjectiveScaler(case["oscale"]) if case["use_o"] else None,
             nonlinear_constraints=ConstraintScaler(case["cscale"]) if case["use_c"] and c_n else None,
         )
-    config = EnOptConfig.model_validate(cfg, context=transforms)
+    config = cfg if raw else EnOptConfig.model_validate(cfg, context=transforms)
     a = np.array(case["slopes"], dtype=np.float64).reshape(r_n, k_n + c_n, n)
     b = np.array(case["offsets"], dtype=np.float64).reshape(r_n, k_n + c_n)
     ev = AffineEvaluator(a[:, :k_n], b[:, :k_n], a[:, k_n:] if c_n else None, b[:, k_n:] if c_n else None,
@@ -77,7 +79,27 @@ def close(case: Any, a: Any, b: Any, tol: float, sig: str, what: str) -> None:  
     check(ok, sig, f"{what}: with transforms {a.tolist()} != without {b.tolist()}", case)
 
 
+def run_basic(case: dict[str, Any]) -> None:
+    """The same dictionary handed to BasicOptimizer with and without the transforms: the evaluator sees the same vectors."""
+    from ropt.plan import BasicOptimizer
+
+    rows = []
+    for with_t in (True, False):
+        cfg, ev, _, transforms = build(case, with_t, raw=True)
+        cfg["samplers"] = [{"method": "norm"}]
+        cfg["gradient"]["seed"] = 7
+        cfg["optimizer"] = {"method": "slsqp", "max_functions": 1, "speculative": True}
+        cfg["realizations"]["realization_min_success"] = None
+        ev.fail = {}
+        BasicOptimizer(cfg, ev, transforms=transforms).run()
+        check(len(ev.calls) >= 1, "harness", "BasicOptimizer made no evaluation", case)
+        rows.append(ev.calls[0]["variables"])
+    close(case, rows[0], rows[1], 1e-9, "evaluator-rows", "variables handed to the evaluator by BasicOptimizer(<dict>, transforms=...)")
+
+
 def run_case(case: dict[str, Any]) -> dict[str, Any]:
+    if case.get("basic"):
+        run_basic(case)
     cfg_t, ev_t, mgr_t, transforms = build(case, True)
     cfg_u, ev_u, mgr_u, _ = build(case, False)
     assert transforms is not None
@@ -193,7 +215,7 @@ def hypothesis_shard(item: dict[str, Any]) -> Collector:
         weights = [draw(st.sampled_from([1.0, 2.0, 0.5])) for _ in range(r_n)]
         fail = sorted(draw(st.sets(st.integers(0, r_n - 1), min_size=1))) if draw(st.integers(0, 4)) == 0 else []
         return {
-            "fail": fail, "rmin": draw(st.integers(0, r_n)),
+            "fail": fail, "rmin": draw(st.integers(0, r_n)), "basic": draw(st.integers(0, 3)) == 0,
             "n": n, "R": r_n, "P": p_n, "K": k_n, "C": c_n, "L": l_n, "x": x, "lb": lb, "ub": ub, "types": types,
             "magnitudes": [draw(st.sampled_from([0.01, 0.1, 0.6])) for _ in range(n)],
             "boundary": [draw(st.integers(1, 3)) for _ in range(n)],
